@@ -33,6 +33,11 @@ CHECKS = {
          "(A) a user-defined counting MarkovChain under ChainRunner::run for n_chains {1,2,3,5,8,32} x dim {1,2,16}: every history of <= 2 (quick; 3 over a reduced alphabet) / 3 (thorough) run calls with n_collect, n_discard in 0..6; shape, row<->initial state, entry k = state after exactly n_discard+k+1 transitions, not one transition more, continuation. (B) MH, Gibbs, HMC: run(a,d); run(b,0) == run(a+b,d) == manual stepping, bit for bit, all a,b,d <= 2 (quick) / 3 (thorough), 1 and 3 chains, sampler left at the last returned state. (C) NUTSChain: row k = recorded position after n_discard+k transitions, exactly n_collect+n_discard-1 transitions, next run starts from the last row; NUTS::run == its chains run individually for 1..8 chains.",
          "NUTS per-transition positions come from the verif record hook 'nuts.end'.",
          "DESIGN.md §3 C09"),
+ "C10": ("E2/E5/E3", "model_checking",
+         "controlled scheduler (E2) enumerating all schedules of the REAL run_progress threads (worker transitions, reporter iterations, stats-timer firings) under a deviation bound; explicit-state abstract reporter model for every N=1..48 with conformance replay of model paths on the real reporter; exhaustive fault-point enumeration",
+         "Layer 1: the real ChainRunner::run_progress and NUTS::run_progress run on real OS threads serialised at hook points; every schedule with <= 1-2 (quick) / 2-4 (thorough) deviations from the default is executed for N = 1..3 chains (and 6), plus the arrival-order reduction for N in {5,6,7,11,16,48}; each execution must return, give run's draws bit for bit (NUTS: shifted by one), diagnostics equal to RunStats::from(draws), and the reporter must exit within ceil(N/5)+3 iterations after the last worker (else: hang). Layer 2: BFS of the abstract reporter (slots, next_active, n_finished) with chain identities for N <= 9/12 and as a quotient for every N = 1..48: invariants, progress, bounded exit from every state; model paths (all for N <= 4/6, transition cover for larger N incl. 48) are replayed on the real reporter and compared iteration by iteration through the observe hook. Layer 3: the statistics receiver dropped before the call, after transition k for every k, after the call (with and without a send at every step); reporter killed at iteration 0..2; precision grid T x backend for HMC and NUTS, MH/Gibbs with 1..12 chains.",
+         "Sequentially consistent interleavings at hook granularity; time replaced by choices (sleep = yield, 1 s timer = binary choice). Arrival-order reduction argued in DESIGN C10. One session per process (single-threaded exploration).",
+         "DESIGN.md §3 C10"),
  "C11": ("E4", "model_checking",
          "bounded-exhaustive input enumeration (all arrays over a 4-letter alphabet for small shapes) + enumerated structured families, against an independent f64 reference and metamorphic oracles",
          "Every array over {-1,0,1,2} of the listed small shapes (quick 1.4e5, thorough 3.5e7 arrays) and every member of fixed structured families up to 16 chains x 5000 draws x 8 parameters is evaluated on the real split_rhat_mean_ess / RunStats / basic_stats and compared with sqrt(var+/W) computed in f64 on the half-chains (either variance-divisor convention, but one and the same on all inputs), plus lower bound, separation ladder, affine/permutation/other-parameter invariance and the run-summary order statistics incl. NaN robustness at every subset of positions.",
